@@ -867,4 +867,47 @@ theorem run_inv (ops : List Op) : ∀ s, StInv s → StInv (run s ops) := by
 
 theorem stInv_init : StInv {} := by intro p hp; simp at hp
 
+instance (l : List RV) : Decidable (VerNodup l) := by unfold VerNodup; infer_instance
+instance (id : Str) : Decidable (ValidIdentifier id) := by unfold ValidIdentifier; infer_instance
+
+/-! ### Concrete data for the non-vacuity examples of PBProofs/C19.lean -/
+namespace Ex
+
+def s (x : String) : Str := x.toList.map Char.toNat
+def v (a b c : Nat) (p : String := "") : Ver := ⟨a, b, c, s p⟩
+
+/-- the resource of `TestVersionSelection` -/
+def testVersions : List RV := [
+  { ver := v 1 2 2, avail := true }, { ver := v 1 2 3, avail := true },
+  { ver := v 1 2 4 "beta", avail := true, pre := true }, { ver := v 1 2 4 "staging", avail := true, pre := true },
+  { ver := v 1 2 5 }, { ver := v 1 2 6 "beta", pre := true }, { ver := v 0 0 0, avail := true }]
+def testRes : Res := { versions := testVersions, index := some true }
+
+/-- only pre-releases, the newest one blacklisted -/
+def preOnly : List RV := [
+  { ver := v 1 1 3 "rc", avail := true, pre := true }, { ver := v 1 2 0 "rc", avail := true, pre := true, bl := true }]
+
+/-- six versions, all on disk, newest selected and active (DESIGN §7 #25) -/
+def six : Res :=
+  let vs : List RV := [5, 4, 3, 2, 1, 0].map (fun m => { ver := v 1 m 0, avail := true })
+  { versions := vs, active := some (v 1 5 0), selected := some (v 1 5 0), disk := vs.map (fun rv => (rv.ver, 0)) }
+
+/-- three old versions selected/active, then three newer ones added behind them (not re-selected yet) -/
+def unsortedTail : Res :=
+  let vs : List RV := [(1, 2), (1, 1), (1, 0), (2, 0), (2, 1), (2, 2)].map (fun m => { ver := v m.1 m.2 0, avail := true })
+  { versions := vs, active := some (v 1 2 0), selected := some (v 1 2 0), disk := vs.map (fun rv => (rv.ver, 0)) }
+
+def history : List Op := [
+  .setFlags true false false,
+  .add (s "app.exe") (s "1.0.0") true false false none,
+  .add (s "app.exe") (s "1.1.0") true false false none,
+  .add (s "app.exe") (s "v1.2") true false false none,
+  .add (s "app.exe") (s "1.3.0-beta") true false false none,
+  .add (s "app.exe") (s "1.2.0") false true false (some true),
+  .add (s "app.exe") (s "0") true false false none,
+  .add (s "app.exe") (s "0.9.0") true false false none,
+  .select, .getFile (s "app.exe"), .purge 2]
+
+end Ex
+
 end PB.Updater
